@@ -200,8 +200,8 @@ def consumer_checks(ctx, ob, P):
         if len(lists) != 1 or rts != sorted(["%s[0]" % lists[0], "random_choice(%s)" % lists[0]]):
             ctx.violation(ob, "R6.argmin", "Simulation.find_next_active_node", "; ".join(rts), "scan-result-not-returned", "the node returned must be one of the minimisers collected by the scan", loc(fn))
         for t in sc.ties:
-            app = [x for x in ast.walk(t) if isinstance(x, ast.Call) and call_name(x) == "append"]
-            if len(app) != 1 or not lists or unparse(app[0].func.value) != lists[0] or unparse(app[0].args[0]) != var:
+            app = [x for x in ast.walk(t) if isinstance(x, ast.Call) and call_name(x) in ("append", "insert")]
+            if app and (len(app) != 1 or not lists or unparse(app[0].func.value) != lists[0] or unparse(app[0].args[-1]) != var):
                 ctx.violation(ob, "R6.argmin", "Simulation.find_next_active_node", "tie arm", "selection-not-from-iteration", "a tied node must be appended to the candidates", loc(t))
     for c in P.subclasses("ArrivalNode"):
         v = P.view(c)
